@@ -96,9 +96,13 @@ CLAIMS['C01'] = dict(level='other', technique='sibling table agreement: the writ
     note='One genuine defect found by C01-SIB-reader was repaired (entities in pattern-validated text).',
     ref='§4 C01')
 
+CLAIMS['C20'] = dict(level='other', technique='sibling table agreement on syntax trees (prefix -> radix chains of parse_integer / parse_float, boolean table) plus MIR-resolved formatter/parser pairs per value kind',
+    text='Decides ONLY the structural clauses: parse_integer and parse_float use the AUTOSAR prefix table (0x/0X->16, 0b/0B->2, leading 0->8, default decimal), the same table in both, with the literal "0" and the two-character prefixes tested before the octal arm; parse_bool maps true|1 and false|0 and nothing else; each value kind is formatted by the std routine whose inverse the value parser (API and loader) uses. Does NOT decide exactness, correct rounding, overflow handling or the statement for all texts: those are run-time properties of std parsers (u64::from_str_radix, f64::from_str, `as f64`) that no static argument in reach bounds.',
+    note='Narrow necessary conditions of a property that is otherwise not applicable to static analysis; stated as such.',
+    ref='§5 / §11.7 C20')
+
 NA = {
     'C16': 'serialisability quantifies over interleavings and compares with sequential runs; the only static route (two-phase/reduction analysis) rejects essentially every public operation of the present design, so it cannot separate code that holds the property from code that does not',
-    'C20': 'statement about numeric results (exactness, correct rounding, overflow per width) computed by std parsers for all texts; no static argument in reach bounds these run-time quantities',
 }
 
 PENDING = {}
